@@ -93,7 +93,7 @@ func PanicFrame(stack string) string {
 	for i, l := range lines {
 		if strings.HasPrefix(l, "github.com/wokdav/gopki/") && i+1 < len(lines) {
 			fn := l
-			if j := strings.Index(fn, "("); j > 0 {
+			if j := strings.LastIndex(fn, "("); j > 0 {
 				fn = fn[:j]
 			}
 			fn = strings.TrimPrefix(fn, "github.com/wokdav/gopki/")
